@@ -301,7 +301,7 @@ func main() {
 		run.Finish(ev.Coverage{
 			"states": states, "transitions": trans, "traces_validated_against_impl": trans, "samples": samples.List,
 			"exhaustive": fix, "fixpoint": fix, "per_backend": per,
-			"rule": "(conc) 2-3 concurrent waiters on one expiring record with cancellers on every proper subset, every schedule within P<=2: each waiter that was not cancelled ends with ErrNotExist after the expiration; (per backend) BFS over all histories over keys a,b of writes (Create/Put/PutMany/CasByVersion) with expiry none/+1s/+1000s/+500us, clock steps +20s/+2000s (at most 3 per history) and every operation kind as first and later touch of an expired key (Get, GetMany, CasByVersion(current), Delete, Create, ListKeys, WaitForVersionChange observed for 2s of virtual time), to a fixpoint of (model state with remaining lifetimes, clock steps used); every transition replays the history on a fresh backend inside one execution of the controlled scheduler (virtual time); oracle: KV model that deletes a record at its expiration instant, full observable state + ListKeys compared after every operation",
+			"rule": "(conc, Engine S on the in-memory backend, every schedule within P<=2) 2-3 concurrent waiters on one expiring record with cancellers on every proper subset: each waiter that was not cancelled ends with ErrNotExist after the expiration; a writer (Put / Put without expiry / CasByVersion / Create) acting exactly at, 1ms before and 1ms after the expiration under 1-2 sleeping waiters: the renewed record is served by every operation kind and is gone after its own expiration; a waiter arriving -12..+3 ns from the expiration instant ends with ErrNotExist; 1-2 readers (Get / GetMany / ListKeys / Delete) racing a writer (Create / Put / PutMany) on an expired, untouched record: the fresh record survives; (per backend) BFS over all histories over keys a,b of writes (Create/Put/PutMany/CasByVersion) with expiry none/+1s/+1000s/+500us, clock steps +20s/+2000s (at most 3 per history) and every operation kind as first and later touch of an expired key (Get, GetMany, CasByVersion(current), Delete, Create, ListKeys, WaitForVersionChange observed for 2s of virtual time), to a fixpoint of (model state with remaining lifetimes, clock steps used); every transition replays the history on a fresh backend inside one execution of the controlled scheduler (virtual time); oracle: KV model that deletes a record at its expiration instant, full observable state + ListKeys compared after every operation",
 		})
 		return
 	}
@@ -463,6 +463,174 @@ func concurrentWaiters(run *ev.Run) {
 			if e.Found != nil {
 				fs = append(fs, fo{e.Found.Sig, e.Found.Detail, []string{fmt.Sprintf("waiters=%d cancel-mask=%b schedule=%v", n, mask, e.FoundPath)}})
 			}
+		}
+	}
+	// fourth family: readers and a writer meet on an expired record that nothing has touched yet (the lazy purge is still
+	// pending). Whoever purges it, the writer's fresh record (expiration in the future or none) must survive
+	for _, reader := range []string{"get", "getmany", "list", "delete"} {
+		for _, writer := range []string{"create", "put", "putmany"} {
+			for readers := 1; readers <= 2; readers++ {
+				reader, writer, readers := reader, writer, readers
+				if readers == 2 && reader == "delete" {
+					continue
+				}
+				var problem string
+				scenario := func() {
+					problem = ""
+					be := kvh.NewInmem()
+					s := be.Fresh()
+					ctx := context.Background()
+					now := func() time.Time { return vsched.Epoch0.Add(vsched.NowPeek()) }
+					exp := now().Add(short)
+					if _, err := s.Create(ctx, kvs.Record{Key: "a", Value: []byte("old"), ExpiresAt: &exp}); err != nil {
+						panic(err)
+					}
+					vsched.Sleep(steps[0]) // the record is expired now, and untouched
+					done := make([]bool, readers+1)
+					werr := ""
+					for r := 0; r < readers; r++ {
+						r := r
+						vsched.GoNamed(fmt.Sprintf("r%d", r), func() {
+							defer func() { done[r] = true }()
+							switch reader {
+							case "get":
+								if rec, err := s.Get(ctx, "a"); err == nil && string(rec.Value) == "old" && problem == "" {
+									problem = "Get(a) served the expired record"
+								}
+							case "getmany":
+								if rs, err := s.GetMany(ctx, "a"); err == nil && len(rs) == 1 && rs[0] != nil && string(rs[0].Value) == "old" && problem == "" {
+									problem = "GetMany(a) served the expired record"
+								}
+							case "list":
+								if it, err := s.ListKeys(ctx, "*"); err == nil {
+									for it.HasNext() {
+										it.Next()
+									}
+									it.Close()
+								}
+							case "delete":
+								s.Delete(ctx, "a") // ErrNotExist (expired) or nil (it removed the writer's record): both are fine for the caller
+							}
+						})
+					}
+					deleted := false
+					vsched.GoNamed("w", func() {
+						defer func() { done[readers] = true }()
+						t := now().Add(long)
+						rec := kvs.Record{Key: "a", Value: []byte("fresh"), ExpiresAt: &t}
+						var err error
+						switch writer {
+						case "create":
+							_, err = s.Create(ctx, rec)
+						case "put":
+							_, err = s.Put(ctx, rec)
+						case "putmany":
+							err = s.PutMany(ctx, []kvs.Record{rec})
+						}
+						werr = kvh.ErrClass(err)
+					})
+					vsched.WaitFor("all", func() bool {
+						for _, d := range done {
+							if !d {
+								return false
+							}
+						}
+						return true
+					})
+					_ = deleted
+					if werr != "nil" && problem == "" {
+						problem = fmt.Sprintf("%s of an expired key returned %s (an expired record is a deleted one)", writer, werr)
+					}
+					if reader != "delete" && problem == "" {
+						if rec, err := s.Get(ctx, "a"); err != nil || string(rec.Value) != "fresh" {
+							problem = fmt.Sprintf("after %d x %s racing %s on the expired key: Get(a) = %q, %s; the fresh record (expires in %v) was dropped", readers, reader, writer, rec.Value, kvh.ErrClass(err), long)
+						}
+					}
+				}
+				e := &vsched.Explorer{Cfg: vsched.Config{P: 2, Preempt: fine, MaxSteps: 20000}, Scenario: scenario, StopAtFirst: true,
+					Check: func(x *vsched.Exec) (string, *vsched.Violation) {
+						if len(x.Panics) > 0 {
+							return "panic", &vsched.Violation{Sig: "inmem purge-race panic", Detail: x.Panics[0]}
+						}
+						if problem != "" {
+							return "v", &vsched.Violation{Sig: "inmem purge-race " + reader + "/" + writer, Detail: problem + "\nnotes: " + strings.Join(x.Notes, " / ")}
+						}
+						if x.Outcome != vsched.Completed {
+							return "v", &vsched.Violation{Sig: "inmem purge-race:" + x.Outcome.String(), Detail: fmt.Sprint(x.Blocked)}
+						}
+						return "ok", nil
+					}}
+				e.Run()
+				if e.InfraErr != "" {
+					b, _ := json.Marshal(map[string]any{"Infra": e.InfraErr})
+					fmt.Println(string(b))
+					return
+				}
+				st.States += int(e.Stats.TreeNodes)
+				st.Transitions += e.Stats.Steps
+				if e.Found != nil {
+					fs = append(fs, fo{e.Found.Sig, e.Found.Detail, []string{fmt.Sprintf("purge race readers=%d %s writer=%s schedule=%v", readers, reader, writer, e.FoundPath)}})
+				}
+			}
+		}
+	}
+	// third family: a waiter that arrives within a few nanoseconds of the expiration instant (the implementation reads
+	// the clock more than once on its way in; the virtual clock ticks 1ns per read, so the sweep puts the expiration
+	// between any two of those reads): it ends with ErrNotExist, it does not sleep on the dead record
+	for off := -12; off <= 3; off++ {
+		off := off
+		var problem string
+		scenario := func() {
+			problem = ""
+			be := kvh.NewInmem()
+			s := be.Fresh()
+			ctx := context.Background()
+			now := func() time.Time { return vsched.Epoch0.Add(vsched.NowPeek()) }
+			exp := now().Add(short)
+			ver, err := s.Create(ctx, kvs.Record{Key: "a", Value: []byte("x"), ExpiresAt: &exp})
+			if err != nil {
+				panic(err)
+			}
+			res, done := "", false
+			wctx, cancel := context.WithCancel(ctx)
+			vsched.GoNamed("w", func() {
+				vsched.Sleep(exp.Sub(now()) + time.Duration(off))
+				res = kvh.ErrClass(s.WaitForVersionChange(wctx, "a", ver))
+				done = true
+			})
+			vsched.Sleep(short + steps[0])
+			vsched.AwaitBlocked()
+			if !done {
+				problem = fmt.Sprintf("a waiter that called WaitForVersionChange %dns from the expiration instant is still blocked %v later", off, steps[0])
+			} else if res != "ErrNotExist" {
+				problem = fmt.Sprintf("waiter arriving %dns from the expiration instant returned %s", off, res)
+			}
+			cancel()
+			vsched.WaitFor("w", func() bool { return done })
+		}
+		e := &vsched.Explorer{Cfg: vsched.Config{P: 0, Preempt: fine, MaxSteps: 20000}, Scenario: scenario, StopAtFirst: true,
+			Check: func(x *vsched.Exec) (string, *vsched.Violation) {
+				if len(x.Panics) > 0 {
+					return "panic", &vsched.Violation{Sig: "inmem waiter-at-expiry panic", Detail: x.Panics[0]}
+				}
+				if problem != "" {
+					return "v", &vsched.Violation{Sig: "inmem waiter-at-expiry-instant", Detail: problem}
+				}
+				if x.Outcome != vsched.Completed {
+					return "v", &vsched.Violation{Sig: "inmem waiter-at-expiry:" + x.Outcome.String(), Detail: fmt.Sprint(x.Blocked)}
+				}
+				return "ok", nil
+			}}
+		e.Run()
+		if e.InfraErr != "" {
+			b, _ := json.Marshal(map[string]any{"Infra": e.InfraErr})
+			fmt.Println(string(b))
+			return
+		}
+		st.States += int(e.Stats.TreeNodes)
+		st.Transitions += e.Stats.Steps
+		if e.Found != nil {
+			fs = append(fs, fo{e.Found.Sig, e.Found.Detail, []string{fmt.Sprintf("waiter arrives %dns from the expiration schedule=%v", off, e.FoundPath)}})
 		}
 	}
 	// second family: a writer renews the record at (or just before / after) the instant it expires while 1-2 waiters
